@@ -1,7 +1,7 @@
 ------------------------------- MODULE HierMC -------------------------------
 (* (M) exhaustive exploration of the routing machine Hier: every behaviour of every asked pair of every platform.     *)
 (* PLATS (environment) = JSON list of platforms; PAIRS = JSON list of [p, s, d] (platform number, source and           *)
-(* destination netpoints); DEV = "none" | "known" (see Hier!DevRev).                                                   *)
+(* destination netpoints); DEV = "none" | "known" (see Hier!DevRev); TRACK = "0" | "1".                              *)
 (* Checked: every behaviour reaches the destination (no state without successor before the stack is empty), no        *)
 (* gateway / cluster node is visited twice, cluster segments have the closed-form hop count (Torus!TorusDistance,      *)
 (* FatTree!FtDistance, Dragonfly!DfDistance), every link exists.  Every terminal state prints the expected route        *)
@@ -19,6 +19,10 @@ ASSUME TLCSet(3, [p \in 1..Len(Plats) |-> Aux(Plats[p])])
 AUX   == TLCGet(3)
 ASSUME TLCSet(4, IF IOEnv.DEV = "known" THEN {"uprev", "djkrev"} ELSE {})
 Dev   == TLCGet(4)
+\* TRACK = "1": the emitted links are kept in the history variable out (needed to print the expected routes); otherwise
+\* behaviours that differ only by the links taken (parallel cables, equivalent parents) share their states
+ASSUME TLCSet(5, IOEnv.TRACK = "1")
+Track == TLCGet(5)
 
 VARIABLES pr, st, out
 vars == <<pr, st, out>>
@@ -32,7 +36,7 @@ X == AUX[Pairs[pr].p]
 Step == LET S == Succ(P, X, Dev, st) IN
         /\ ~Done(st)
         /\ IF S = {} THEN st' = StuckState(st) /\ out' = out
-           ELSE \E x \in S : st' = x.s /\ out' = out \o x.e
+           ELSE \E x \in S : st' = x.s /\ out' = IF Track THEN out \o x.e ELSE out
         /\ UNCHANGED pr
 Next == Step
 Spec == Init /\ [][Next]_vars
@@ -40,7 +44,7 @@ Spec == Init /\ [][Next]_vars
 \* every behaviour reaches the destination ("stuck"), no gateway met twice ("revisit"), cluster segments have the closed
 \* form hop count ("badcount"), every link and gateway exists ("nolink", "nogw")
 NoBadFlag == st.fl \cap BadFlags = {}
-LatIsSum == st.lat = SeqSum([i \in 1..Len(out) |-> LinkLat(P, out[i])])
+LatIsSum == Track => st.lat = SeqSum([i \in 1..Len(out) |-> LinkLat(P, out[i])])
 
 \* one JSON string per line (TLC wraps long values, and the lines of several workers would interleave)
 PrintExpected == Done(st) => PrintT(ToJson([t |-> "EXP", pr |-> pr, l |-> out, lat |-> st.lat, vt |-> st.vt, fl |-> st.fl]))
